@@ -291,7 +291,7 @@ func TestC09Topology(t *testing.T) {
 		t.Skip()
 	}
 
-	kit.SetChecks(30_000, 200_000)
+	kit.SetChecks(20_000, 200_000)
 	rapid.Check(t, func(rt *rapid.T) { run(rt, genC09(rt)) })
 }
 
